@@ -1,1 +1,90 @@
-(* stub: to be written by group Rates *)
+(* C14 - An interrupted cache write cannot corrupt exchange rates.
+   Obligations of the property; proofs live in Proofs/CrashProps.v.
+
+   Model/CrashFs.v: the cache directory has a live file (rates-<year>.csv)
+   and a temporary file; a write procedure is a list of steps; after a crash
+   following ANY number of steps, a file holds its synced part plus ANY prefix
+   of what was written to it since ([post_crash]); rename is atomic.
+   [pubval x] is what a correct cache holds for day x (the published rate, or
+   the zero placeholder); [consistent pubval rows] says a year of rows agrees
+   with it; [wf_row]: years 0..9999, mantissa within 96 bits, scale <= 28
+   (what rust_decimal / the time crate can print).  The reader is the
+   row-skipping parser [parse_csv] followed by the year map look-up [mget]
+   (a cached year is accepted for a date iff the date is in it). *)
+From Coq Require Import List NArith ZArith QArith Qcanon Bool.
+From ACB Require Import Base.QcExtra Base.Fit Model.Rates Model.CrashFs
+     Proofs.RatesProps Proofs.CrashProps.
+Import ListNotations.
+Local Open Scope Z_scope.
+
+(* The procedure the code follows since 1bcf18f (write rates-<year>.csv.tmp,
+   flush, sync, rename over rates-<year>.csv) is safe: for every old year
+   (or none), every new year content, every stale temporary file, every crash
+   point and every persisted prefix, every rate a later run can read from the
+   live file is identical to the published one. *)
+Theorem C14_safe_rename : forall (pubval : Z -> Qc) old tmp0 new live tmp,
+  Forall wf_row new -> consistent pubval new ->
+  match old with Some rs => Forall wf_row rs /\ consistent pubval rs | None => True end ->
+  post_crash (rename_proc new) (fs_of old tmp0) live tmp ->
+  forall b x v, live = Some b -> mget x (parse_csv b) = Some v -> v = pubval x.
+Proof. exact CrashProps.rename_safe. Qed.
+Check C14_safe_rename : forall (pubval : Z -> Qc) old tmp0 new live tmp,
+  Forall wf_row new -> consistent pubval new ->
+  match old with Some rs => Forall wf_row rs /\ consistent pubval rs | None => True end ->
+  post_crash (rename_proc new) (fs_of old tmp0) live tmp ->
+  forall b x v, live = Some b -> mget x (parse_csv b) = Some v -> v = pubval x.
+Print Assumptions C14_safe_rename.
+
+(* atomicity, by induction over the step list: at every crash point the live
+   file is the complete old content (or still absent) or the complete new one *)
+Theorem C14_rename_atomic : forall old tmp0 new live tmp,
+  post_crash (rename_proc new) (fs_of old tmp0) live tmp ->
+  live = option_map render_rows old \/ live = Some (render_rows new).
+Proof. exact CrashProps.rename_atomic. Qed.
+Check C14_rename_atomic : forall old tmp0 new live tmp,
+  post_crash (rename_proc new) (fs_of old tmp0) live tmp ->
+  live = option_map render_rows old \/ live = Some (render_rows new).
+Print Assumptions C14_rename_atomic.
+
+(* the reader gives back exactly the rows of a completely written file: the
+   CSV cache is the in-memory cache of C13 *)
+Theorem C14_read_back : forall rows,
+  Forall wf_row rows -> parse_csv (render_rows rows) = map row_value rows.
+Proof. exact CrashProps.parse_render_rows. Qed.
+Check C14_read_back : forall rows,
+  Forall wf_row rows -> parse_csv (render_rows rows) = map row_value rows.
+Print Assumptions C14_read_back.
+
+(* The procedure before the fix (File::create on the live file, rows streamed
+   into it) is NOT safe: writing "2022-01-05,1.2345" and crashing after 14
+   bytes leaves "2022-01-05,1.2", which the reader accepts as the rate 1.2 of
+   5 January.  (Found on the real code by the check before the fix - there
+   with "2016-01-06,1." read as 1 - and kept as a theorem about the model of
+   the old procedure.) *)
+Theorem C14_inplace_refuted :
+  exists (pubval : Z -> Qc) old new live tmp x v,
+    Forall wf_row new /\ consistent pubval new /\
+    Forall wf_row old /\ consistent pubval old /\
+    post_crash (inplace_proc new) (fs_of (Some old) None) (Some live) tmp /\
+    mget x (parse_csv live) = Some v /\ v <> pubval x.
+Proof. exact CrashProps.inplace_refuted. Qed.
+Check C14_inplace_refuted :
+  exists (pubval : Z -> Qc) old new live tmp x v,
+    Forall wf_row new /\ consistent pubval new /\
+    Forall wf_row old /\ consistent pubval old /\
+    post_crash (inplace_proc new) (fs_of (Some old) None) (Some live) tmp /\
+    mget x (parse_csv live) = Some v /\ v <> pubval x.
+Print Assumptions C14_inplace_refuted.
+
+(* Non-vacuity: the same content and the same crash point (14 bytes written)
+   under the fixed procedure: the live file is still the complete old year,
+   the 14 bytes sit in the temporary file, and the rate read is the published
+   one. *)
+Example C14_nonvacuous :
+  Forall wf_row ex_new /\ consistent ex_pubval ex_new /\
+  exists live tmp,
+    post_crash (rename_proc ex_new) (fs_of (Some ex_new) None) (Some live) (Some tmp) /\
+    live = render_rows ex_new /\
+    tmp = map Z.to_N [50; 48; 50; 50; 45; 48; 49; 45; 48; 53; 44; 49; 46; 50] /\
+    mget 18997 (parse_csv live) = Some (ex_pubval 18997).
+Proof. exact CrashProps.c14_example. Qed.
